@@ -102,7 +102,7 @@ def make_case(ctx, cid, en, batch=None, mode=None):
         if not rerun:
             rerun = True
             extra.append(enumgen.generated_sexp(en, decl))
-    case = {"id": cid, "en": en, "decl": decl, "files": files0, "mode": lay["mode"], "spread": lay["spread"], "edit": edit,
+    case = {"id": cid, "en": en, "decl": decl, "files": files0, "mode": lay["mode"], "spread": lay["spread"], "edit": edit, "verbose": lay["verbose"],
             "runs": runs, "rerun": rerun,
             "oracle": {".": enumgen.oracle_c04(en, decl, win, enumgen.str_probes(ctx.rng, T, decl))} if decl else {},
             "sexp": enumgen.case_sexp(cid, "c04", en, extra), "cmd": "shoot enum " + " ".join(lay["sel"]),
@@ -250,6 +250,7 @@ def run(ctx, obl):
             res.hist("shape", c["shape"])
             res.hist("run-mode", c["mode"] + ("+spread" if c["spread"] and c["mode"].startswith("file") else ""))
             res.hist("rerun", str(c["rerun"]))
+            res.hist("verbose-flag", str(c["verbose"]))
             res.hist("generated-header-file", str(bool(c["en"].get("genheader"))))
             res.hist("edit-history", c["edit"])
             res.hist("requested-feature", c["en"].get("feature", "random"))
